@@ -222,7 +222,15 @@ func c20stress(args []string) error {
 			return res
 		}
 
+		// every third history is "tight": no pauses, the consumer mostly drains (DequeueAll / Dequeue) so that the windows
+		// inside the drain operations meet the producer often; every history ends with a final drain by the consumer
+		tight := h%3 == 2
+
 		pause := func(r *rand.Rand) {
+			if tight {
+				return
+			}
+
 			switch r.Intn(6) {
 			case 0:
 				runtime.Gosched()
@@ -245,7 +253,12 @@ func c20stress(args []string) error {
 			fresh := 5000
 
 			for i := 0; i < *nops; i++ {
-				switch x := r.Intn(10); {
+				x := r.Intn(10)
+				if tight && x >= 4 {
+					x = 5 + x%2*3 // all | depth
+				}
+
+				switch {
 				case x < 5:
 					call("c", qop{Op: "deq"})
 				case x < 7:
@@ -273,6 +286,25 @@ func c20stress(args []string) error {
 
 			return nil
 		}
+
+		if len(panics) > 0 {
+			emit(map[string]interface{}{"id": h, "ok": false, "sig": "C20:stress:panic", "detail": panics[0]})
+
+			continue
+		}
+
+		// final drain by the consumer, after the producer has finished: whatever was enqueued and not handed out must come now
+		func() {
+			defer func() {
+				if p := recover(); p != nil {
+					panics = append(panics, fmt.Sprintf("final drain: %v", p))
+				}
+			}()
+
+			call("c", qop{Op: "depth"})
+			call("c", qop{Op: "all"})
+			call("c", qop{Op: "depth"})
+		}()
 
 		if len(panics) > 0 {
 			emit(map[string]interface{}{"id": h, "ok": false, "sig": "C20:stress:panic", "detail": panics[0]})
